@@ -24,7 +24,7 @@ pub fn mon() -> Mon {
 
 fn plan(cfg: &RunCfg) -> EncPlan {
     let mut p = EncPlan::new(&RESPONSE_FORMS);
-    p.random_per_form = cfg.pick(80_000, 2_000_000);
+    p.random_per_form = cfg.pick(80_000, 5_000_000);
     p.param_sweep_reps = cfg.pick(24, 400) as u32;
     p.addr_sweep_reps = cfg.pick(4, 100) as u32;
     p
